@@ -211,6 +211,16 @@ func (c *Ctx) intBinop(st *State, op token.Token, a, b Term, t types.Type, bt ty
 			if signed {
 				return app(srt, "bvsrem", a, b)
 			}
+			if _, isLit := litInt(b); !isLit && c.fc != nil && c.fc.Opts["uf-mod"] != "" {
+				// unsigned remainder by a variable divisor kept uninterpreted: congruence and result < divisor only
+				fn := fmt.Sprintf("go.urem.%d", w)
+				if !c.uf[fn] {
+					c.declareUF(fn, []string{srt, srt}, srt)
+					c.raw(fmt.Sprintf("(assert (forall ((a %s) (b %s)) (! (=> (not (= b %s)) (bvult (%s a b) b)) :pattern ((%s a b)))))", srt, srt, IntLit64(srt, 0).S, fn, fn))
+					c.trusted["unsigned % by a variable divisor is an uninterpreted function with the fact result < divisor only (opt uf-mod)"] = true
+				}
+				return app(srt, fn, a, b)
+			}
 			return app(srt, "bvurem", a, b)
 		case token.AND:
 			return app(srt, "bvand", a, b)
